@@ -100,6 +100,10 @@ type cachedRef struct {
 func c19Scenario(name string, depth int, howAxis bool) *explore.Scenario {
 	parrots := c19Parrots()
 	names := []string{"a.example", "b.example"}
+	nServers := 3
+	if howAxis {
+		nServers = 4 // + a TLS 1.3 server forced (verif hook) to another suite of the same hash
+	}
 	return &explore.Scenario{
 		Name: name,
 		// steps after the second may deviate from "repeat the previous step" in at most 2 axes
@@ -115,7 +119,7 @@ func c19Scenario(name string, depth int, howAxis bool) *explore.Scenario {
 				var st c19Step
 				if k < 2 {
 					st.parrot = x.Choose("step.parrot", len(parrots))
-					st.server = x.Choose("step.server", 3)
+					st.server = x.Choose("step.server", nServers)
 					st.name = x.Choose("step.name", 2)
 					st.late = k > 0 && x.Choose("step.late", 2) == 1
 				} else {
@@ -145,7 +149,7 @@ func c19Scenario(name string, depth int, howAxis bool) *explore.Scenario {
 				if st.server > 0 {
 					vers = tls.VersionTLS13
 				}
-				hist = append(hist, fmt.Sprintf("%s->%s@%s%s", p.name, []string{"tls12", "tls13", "tls13-hrr"}[st.server], name, map[bool]string{true: "+8d", false: ""}[st.late]))
+				hist = append(hist, fmt.Sprintf("%s->%s@%s%s", p.name, []string{"tls12", "tls13", "tls13-hrr", "tls13-chacha-forced"}[st.server], name, map[bool]string{true: "+8d", false: ""}[st.late]))
 				x.Transitions++
 				ccfg := p.client.config(name)
 				ccfg.ClientSessionCache = cache
@@ -168,6 +172,16 @@ func c19Scenario(name string, depth int, howAxis bool) *explore.Scenario {
 				if !offersCert(o, "ecdsa") {
 					scfg = peer.ServerConfig(peer.Fix().RSA)
 					scfg.MaxVersion, scfg.Time = vers, clock
+				}
+				var suiteHook *connHooks
+				if st.server == 3 {
+					// the server's TLS 1.3 suite choice changed since the session was issued (same hash:
+					// the PSK stays usable, RFC 8446 4.2.11)
+					if !has16(offerSuites(h0), tls.TLS_CHACHA20_POLY1305_SHA256) {
+						r.Obs = "chacha-not-offered"
+						return
+					}
+					suiteHook = &connHooks{Suite13: tls.TLS_CHACHA20_POLY1305_SHA256}
 				}
 				if st.server == 2 {
 					var grp uint16
@@ -219,7 +233,15 @@ func c19Scenario(name string, depth int, howAxis bool) *explore.Scenario {
 						hist[len(hist)-1] += []string{"", "[prebuilt]", "[prebuilt+SetClientRandom]", "[built twice]", "[built without session, then Handshake]", "[built without session, then BuildHandshakeState]"}[how]
 					}
 				}
-				hs := peer.Run(ccfg, p.client.ID, scfg, peer.Opts{Prepare: prep, Echo: true})
+				var unhook func()
+				hs := peer.Run(ccfg, p.client.ID, scfg, peer.Opts{Prepare: prep, Echo: true, OnConns: func(u *tls.UConn, sconn *tls.Conn) {
+					if suiteHook != nil {
+						unhook = installHooks(sconn, suiteHook)
+					}
+				}})
+				if unhook != nil {
+					unhook()
+				}
 				what := strings.Join(hist, " ; ")
 				if hs.CPanic != "" {
 					r.Violate("C19|panic|"+errClass(fmt.Errorf("%s", firstLineOf(hs.CPanic))), "history %s: client panicked: %s", what, truncStr(hs.CPanic, 400))
@@ -351,9 +373,11 @@ func c19Scenarios(thorough bool) []*explore.Scenario {
 func init() {
 	register(&Prop{ID: "C19", Level: "model_checking", Variant: "A", Scenarios: c19Scenarios,
 		Run: func(c *explore.Check, thorough bool) {
-			c.Rule = "histories of 3 (4) connections sharing one ClientSessionCache and one server ticket key: the first two steps range over the full product of 7 clients (Chrome_100, Chrome_100_PSK, Chrome_112_PSK_Shuf, Firefox_120, Golang, custom TLS 1.2 with and without extended_master_secret) x server {TLS 1.2, TLS 1.3, TLS 1.3 answering with an HRR} x server name {a, b} x clock {+1 min, +8 days}; later steps repeat the previous step with <=2 deviations; every step handshakes, echoes (absorbing NewSessionTicket) and closes; plus all 2-connection histories with the second connection reached by {Handshake, BuildHandshakeState+Handshake, BuildHandshakeState+SetClientRandom+Handshake, BuildHandshakeState twice+Handshake, BuildHandshakeStateWithoutSession+Handshake, BuildHandshakeStateWithoutSession+BuildHandshakeState+Handshake}. Oracle per step against a reference cache: must resume iff an unexpired session of the same parrot/name/version exists and the spec carries the needed extension (also through an HRR); DidResume agrees on both ends; pre_shared_key last and well-formed; no handshake failure at all; no ticket issued for one name offered to another. distinct = history"
+			c.Rule = "histories of 3 (4) connections sharing one ClientSessionCache and one server ticket key: the first two steps range over the full product of 7 clients (Chrome_100, Chrome_100_PSK, Chrome_112_PSK_Shuf, Firefox_120, Golang, custom TLS 1.2 with and without extended_master_secret) x server {TLS 1.2, TLS 1.3, TLS 1.3 answering with an HRR} x server name {a, b} x clock {+1 min, +8 days}; later steps repeat the previous step with <=2 deviations; every step handshakes, echoes (absorbing NewSessionTicket) and closes; plus all 2-connection histories (servers additionally: TLS 1.3 forced to TLS_CHACHA20_POLY1305_SHA256) with the second connection reached by {Handshake, BuildHandshakeState+Handshake, BuildHandshakeState+SetClientRandom+Handshake, BuildHandshakeState twice+Handshake, BuildHandshakeStateWithoutSession+Handshake, BuildHandshakeStateWithoutSession+BuildHandshakeState+Handshake}. Oracle per step against a reference cache: must resume iff an unexpired session of the same parrot/name/version exists and the spec carries the needed extension (also through an HRR); DidResume agrees on both ends; pre_shared_key last and well-formed; no handshake failure at all; no ticket issued for one name offered to another. distinct = history"
 			c.Assumptions = []string{"reference resumption table (mc/props/c19.go) written from the property statement; ticket lifetime 7 days", "OmitEmptyPsk is on for every client"}
 			runAll(c, c19Scenarios(thorough), 0)
 			c.Gate(c.Total.Counters["resumed"] > 500, "non-vacuity: %d resumed connections", c.Total.Counters["resumed"])
 		}})
 }
+
+func offerSuites(h *wire.Hello) []uint16 { return h.Suites }
